@@ -17,7 +17,9 @@ Definition obs_eqb (a b : obs) : bool :=
   | _, _ => false
   end.
 
-Inductive bk := KRr | KCdb | KCdbSep | KV1 | KV2.
+(* KPV1 / KPV2: the data file preprocessed first (% lines -> ! range-point lines), the
+   preprocessed text compiled to RocksDB v1 / v2: the same database is expected *)
+Inductive bk := KRr | KCdb | KCdbSep | KV1 | KV2 | KPV1 | KPV2.
 
 (* names are given as label lists; the models get the packed form *)
 Record query := mkQ { q_labels : list bytes; q_ecs : bool; q_ip : option N;
@@ -64,12 +66,12 @@ Definition rr_model (pts : result (list point)) (a plen : N) : obs :=
   end.
 
 Definition backend_of (b : bk) : backend :=
-  match b with KCdb => BCdb false | KCdbSep => BCdb true | KV1 => BV1 | _ => BV2 end.
+  match b with KCdb => BCdb false | KCdbSep => BCdb true | KV1 | KPV1 => BV1 | _ => BV2 end.
 
 Definition db_of (b : bk) (f : dfile) : result (list kv) :=
   match b with
   | KCdb | KCdbSep => match cdb_db f with Some d => Ok d | None => Err 2 end
-  | KV1 => rdb_db isort false f
+  | KV1 | KPV1 => rdb_db isort false f
   | _ => rdb_db isort true f
   end.
 
